@@ -412,11 +412,14 @@ def judge_sessions(chk, cases, codes, stats):
                 [r[0] for r in c["reps"]], c["input"][:160], c["ms"], c["mr"])
             if cls and m:
                 chk.violation("[%s] %s" % (cls, what), session_payload(c), cls=cls)
+            elif not cls and stats.get("reported", 0) >= 5:
+                stats["unreported_violations"] = stats.get("unreported_violations", 0) + 1
             elif cls:
                 # inside a listed class and not as the model predicts: informational
                 chk.notes.append("session inside finding class %s differs from the model: %r" % (cls, c["input"][:120]))
                 stats["disagreements"] += 1
             else:
+                stats["reported"] = stats.get("reported", 0) + 1
                 chk.violation(what, session_payload(c))
         elif not m:
             stats["disagreements"] += 1
@@ -604,6 +607,8 @@ def run(chk):
                            "chunk1_position_checked": sum(1 for c in good if c["chunk"] == 1),
                            "spec_violations_seen_all_in_listed_classes": stats["spec_violations_seen"],
                            **{k: v for k, v in stats.items() if k.startswith("in_class_")}}
+    if stats.get("unreported_violations"):
+        chk.notes.append("%d further spec-violating sessions not written out (first 5 reported)" % stats["unreported_violations"])
     chk.cov["reader_cases"] = {"total": len(rcases), "structured": sum(1 for x in rcases if x[1]), "oversize": n_over}
     chk.cov["parse_cases"] = len(pargs)
     chk.cov["verdict_cases"] = len(msgs)
